@@ -5,6 +5,8 @@ package core
 
 import (
 	"crypto/sha256"
+	"sort"
+	"sync"
 	"encoding/hex"
 	"fmt"
 	"os"
@@ -106,14 +108,45 @@ type EventLog struct {
 	max     int
 	n       int
 	verbose bool
+	amu     sync.Mutex
+	async   []string
 }
 
 func NewEventLog() *EventLog {
 	return &EventLog{h: sha256.New(), max: 300, verbose: os.Getenv("VERIF_VERBOSE") != ""}
 }
 
-func (l *EventLog) Logf(format string, a ...any) {
+// Async records a line produced by a goroutine other than the driver. Lines produced between two
+// quiescent points are sorted before they enter the digest, because goroutines that wake at the same
+// simulated instant run in an order the simulator does not control (and that has no effect).
+func (l *EventLog) Async(format string, a ...any) {
 	s := fmt.Sprintf(format, a...)
+	l.amu.Lock()
+	l.async = append(l.async, s)
+	l.amu.Unlock()
+}
+
+// Flush moves buffered async lines into the log (driver only, at quiescence).
+func (l *EventLog) Flush() {
+	l.amu.Lock()
+	lines := l.async
+	l.async = nil
+	l.amu.Unlock()
+	if len(lines) == 0 {
+		return
+	}
+	sort.Strings(lines)
+	for _, s := range lines {
+		l.add("  ~ " + s)
+	}
+}
+
+func (l *EventLog) Logf(format string, a ...any) {
+	l.Flush()
+	l.add(fmt.Sprintf(format, a...))
+}
+
+func (l *EventLog) add(s string) {
 	l.n++
 	l.h.Write([]byte(s))
 	l.h.Write([]byte{'\n'})
